@@ -155,71 +155,92 @@ def negative_samples(ctx, traces):
             out.append(e)
             if bad_at is not None and k == bad_at:
                 expect.append(len(out))
-    # reader: a tree with a non-empty read; flip one byte id / one result class
+    skipped = []
+    # reader: a tree with a non-empty read; flip one byte id / one result class / drop a byte of a sequential read
     def reader_seg():
         for i, e in enumerate(evs_r):
-            if e["ev"] == "tree" and e["size"] >= 3 and evs_r[i + 1]["ev"] == "readat":
-                return [e, evs_r[i + 1]] + [x for x in evs_r[i + 2:i + 8] if x["ev"] == "seqread"][:1]
-        raise vlib.MachineryError("no reader segment for the negative sample")
+            if e["ev"] == "tree" and e["size"] >= 3 and i + 2 < len(evs_r) and evs_r[i + 1]["ev"] == "readat" and evs_r[i + 2]["ev"] == "seqread":
+                return [e, evs_r[i + 1], evs_r[i + 2]]
+        return None
     seg = reader_seg()
-    add(json.loads(json.dumps(seg)))
-    b = json.loads(json.dumps(seg))
-    k = next(j for j, r in enumerate(b[1]["rs"]) if len(r[3]) >= 2)
-    b[1]["rs"][k][3][1] += 1
-    add(b, 1)
-    b = json.loads(json.dumps(seg))
-    k = next(j for j, r in enumerate(b[1]["rs"]) if r[2] == "ok" and r[1] > 0)
-    b[1]["rs"][k][2] = "eof"
-    add(b, 1)
-    b = json.loads(json.dumps(seg))
-    ch = b[2]["runs"][-1][1][0]          # the first Read of the run with the largest buffer
-    ch[1] = ch[1][:-1] if len(ch[1]) > 1 else [7]
-    add(b, 2)
-    # writer: a case with at least one "bytes" blob
+    if seg:
+        add(json.loads(json.dumps(seg)))
+        b = json.loads(json.dumps(seg))
+        k = next(j for j, r in enumerate(b[1]["rs"]) if len(r[3]) >= 2)
+        b[1]["rs"][k][3][1] += 1
+        add(b, 1)
+        b = json.loads(json.dumps(seg))
+        k = next(j for j, r in enumerate(b[1]["rs"]) if r[2] == "ok" and r[1] > 0)
+        b[1]["rs"][k][2] = "eof"
+        add(b, 1)
+        b = json.loads(json.dumps(seg))
+        ch = b[2]["runs"][-1][1][0]          # the first Read of the run with the largest buffer
+        ch[1] = ch[1][:-1] if len(ch[1]) > 1 else [7]
+        add(b, 2)
+    else:
+        skipped.append("reader")
+    # writer: a case whose file references a chunk that occurs exactly once in the input
     def writer_seg():
-        i = 0
+        i, best = 0, None
         while i < len(evs_w):
             j = i + 1
             while j < len(evs_w) and evs_w[j]["ev"] != "wstart":
                 j += 1
             seg = evs_w[i:j]
-            if seg[0]["class"] == "random" and any(e.get("kind") == "bytes" for e in seg) and seg[-1]["ev"] == "wdone":
-                return seg
+            idc = Counter(e.get("id") for e in seg if e.get("kind") == "chunk")
+            nchunk = [k for k, e in enumerate(seg) if e.get("kind") == "chunk" and idc[e["id"]] == 1
+                      and len(e["match"]) == 1 and e["match"][0][0] == e["match"][0][1]]
+            if nchunk and seg[-1]["ev"] == "wdone" and any(e.get("kind") == "file" for e in seg):
+                if any(e.get("kind") == "bytes" for e in seg):
+                    return seg, nchunk[0]
+                best = best or (seg, nchunk[0])
             i = j
-        raise vlib.MachineryError("no writer segment for the negative sample")
-    seg = writer_seg()
-    add(json.loads(json.dumps(seg)))
-    nfile = next(k for k, e in enumerate(seg) if e.get("kind") == "file")
-    nbytes = next(k for k, e in enumerate(seg) if e.get("kind") == "bytes")
-    idc = Counter(e.get("id") for e in seg if e.get("kind") == "chunk")
-    nchunk = next(k for k, e in enumerate(seg) if e.get("kind") == "chunk" and idc[e["id"]] == 1)
-    b = json.loads(json.dumps(seg))            # the file blob uploaded before a bytes blob it references
-    f = b.pop(nfile)
-    b.insert(nbytes, f)
-    add(b, nbytes)
-    b = json.loads(json.dumps(seg))            # a chunk above the cap
-    b[nchunk]["size"] = (1 << 20) + 1
-    add(b, nchunk)
-    b = json.loads(json.dumps(seg))            # a chunk whose bytes occur elsewhere in the input
-    b[nchunk]["match"] = [[m[0] + 1, m[1] + 1, m[2]] for m in b[nchunk]["match"]]
-    add(b, nfile)
-    b = json.loads(json.dumps(seg))            # the call returned something else than the file blob
-    b[-1]["file"] = b[nchunk]["id"]
-    add(b, len(b) - 1)
+        return best
+    ws = writer_seg()
+    if ws:
+        seg, nchunk = ws
+        add(json.loads(json.dumps(seg)))
+        nfile = next(k for k, e in enumerate(seg) if e.get("kind") == "file")
+        first = min([k for k, e in enumerate(seg) if e.get("kind") == "bytes"] or [nchunk])
+        b = json.loads(json.dumps(seg))            # the file blob uploaded before a blob it references
+        f = b.pop(nfile)
+        b.insert(first, f)
+        add(b, first)
+        b = json.loads(json.dumps(seg))            # a chunk above the cap
+        b[nchunk]["size"] = (1 << 20) + 1
+        add(b, nchunk)
+        b = json.loads(json.dumps(seg))            # a chunk whose bytes occur elsewhere in the input
+        b[nchunk]["match"] = [[m[0] + 1, m[1] + 1, m[2]] for m in b[nchunk]["match"]]
+        add(b, nfile)
+        b = json.loads(json.dumps(seg))            # the call returned something else than the file blob
+        b[-1]["file"] = b[nchunk]["id"]
+        add(b, len(b) - 1)
+    else:
+        skipped.append("writer")
     # static sets: drop / duplicate a member
     def dir_seg():
         for i, e in enumerate(evs_d):
-            if e["ev"] == "dir" and e["n"] > e["max"]:
-                return [e] + [x for x in evs_d[i + 1:i + 3] if x["ev"] == "members"]
-        raise vlib.MachineryError("no directory segment for the negative sample")
+            if e["ev"] == "dir" and e["n"] > e["max"] and i + 2 < len(evs_d) and evs_d[i + 1]["ev"] == "members" and evs_d[i + 2]["ev"] == "members":
+                return [e, evs_d[i + 1], evs_d[i + 2]]
+        return None
     seg = dir_seg()
-    add(json.loads(json.dumps(seg)))
-    b = json.loads(json.dumps(seg))
-    b[1]["ids"] = b[1]["ids"][1:]
-    add(b, 1)
-    b = json.loads(json.dumps(seg))
-    b[2]["ids"][0] = b[2]["ids"][1]
-    add(b, 2)
+    if seg:
+        add(json.loads(json.dumps(seg)))
+        b = json.loads(json.dumps(seg))
+        b[1]["ids"] = b[1]["ids"][1:]
+        add(b, 1)
+        b = json.loads(json.dumps(seg))
+        b[2]["ids"][0] = b[2]["ids"][1]
+        add(b, 2)
+    else:
+        skipped.append("dirs")
+    if skipped:
+        # every segment of that kind was itself rejected (reported above): nothing clean to corrupt
+        if not ctx.violations and not ctx.known_seen:
+            raise vlib.MachineryError("no clean %s segment for the negative samples although nothing was rejected" % skipped)
+        ctx.notes.append("negative samples skipped for %s: every recorded segment of that kind was itself rejected" % skipped)
+    if not out:
+        return
     tf = ctx.path("negative.ndjson")
     vlib.write_jsonl(tf, out)
     r = ctx.tlc_trace("Trace_Schema", "Trace_Schema.cfg", tf)
@@ -227,7 +248,7 @@ def negative_samples(ctx, traces):
     if not r["accepted"] or got != sorted(expect):
         raise vlib.MachineryError("negative samples: expected rejections exactly at lines %s, got %s - the trace spec does not bind\n%s"
                                   % (sorted(expect), got, r["out"][-1500:]))
-    ctx.count("T", negative_samples_rejected=len(expect), negative_controls_accepted=3)
+    ctx.count("T", negative_samples_rejected=len(expect), negative_controls_accepted=3 - len(skipped))
 
 
 # ----------------------------------------------------------------------------------------------- main
@@ -365,10 +386,9 @@ def run(ctx, replay):
                 out += evs[i:e]
             i = j
         return out
-    if all(m in keep for m in ("reader", "writer", "dirs")):
-        negative_samples(ctx, (clean("reader", ("tree",)), clean("writer", ("wstart",)), clean("dirs", ("dir",), ("readdir",))))
-    else:
-        raise vlib.MachineryError("a driver died: no trace to take negative samples from")
+    for m in ("reader", "writer", "dirs"):
+        keep.setdefault(m, ([], set()))       # the driver of that shard died inside perkeep (reported above)
+    negative_samples(ctx, (clean("reader", ("tree",)), clean("writer", ("wstart",)), clean("dirs", ("dir",), ("readdir",))))
 
     # ---- S results
     for f in s_futs:
